@@ -282,10 +282,18 @@ def pacing(cfg):
                 eng.check(r2['outcome'] == 'exc:RuntimeError', 'C17.strict', f"a too-slow report was logged but rt_strict=True ended with {r2['outcome']}: {desc}", {'fp': fp})
                 pre = [(s, t) for s, t, c in r2['steps']]
                 full = [(s, t) for s, t, c in r['steps']]
-                eng.check(pre == full[:len(pre)], 'C17.strict', f'rt_strict changed the steps before the first report: {pre} vs {full}: {desc}', {'fp': fp})
+                if cfg.get('unconnected'):
+                    # unconnected simulators are not ordered relative to each other: compare each simulator's own sequence
+                    ok_pre = all([t for s, t in pre if s == x] == [t for s, t in full if s == x][:len([1 for s, t in pre if s == x])] for x in 'ABC')
+                else:
+                    ok_pre = pre == full[:len(pre)]
+                eng.check(ok_pre, 'C17.strict', f'rt_strict changed the steps before the first report: {pre} vs {full}: {desc}', {'fp': fp})
             else:
                 eng.check(r2['outcome'] == 'done', 'C17.strict', f"no too-slow report but rt_strict=True ended with {r2['outcome']} {r2.get('exc')}: {desc}", {'fp': fp})
-                same = len(r2['steps']) == len(r['steps']) and all(a[0] == b[0] and a[1] == b[1] for a, b in zip(r['steps'], r2['steps']))
+                if cfg.get('unconnected'):
+                    same = all([t for s, t, c in r['steps'] if s == x] == [t for s, t, c in r2['steps'] if s == x] for x in 'ABC')
+                else:
+                    same = len(r2['steps']) == len(r['steps']) and all(a[0] == b[0] and a[1] == b[1] for a, b in zip(r['steps'], r2['steps']))
                 eng.check(same, 'C17.strict', f'rt_strict changed the schedule: {desc}', {'fp': fp})
         return ('done', {'nontrivial': True, 'steps': [(s, str(t), str(c)) for s, t, c in r['steps']][:12], 'slow': len(slow)})
     return h
